@@ -1,1 +1,313 @@
-fn main() { println!("hello"); }
+#![allow(dead_code, unused_imports)]
+mod dump;
+mod exec;
+mod minimize;
+mod model;
+mod profiles;
+mod profiles2;
+mod profiles3;
+mod rng;
+mod runner;
+mod sched;
+mod simdir;
+mod workload;
+
+use std::collections::{BTreeMap, BTreeSet};
+use std::io::Write;
+use std::time::Instant;
+
+fn leak(s: &str) -> &'static str {
+    Box::leak(s.to_string().into_boxed_str())
+}
+
+fn has(args: &[String], name: &str) -> bool {
+    args.iter().any(|a| a == name)
+}
+
+fn arg(args: &[String], name: &str) -> Option<String> {
+    args.iter().position(|a| a == name).and_then(|i| args.get(i + 1).cloned())
+}
+
+fn main() {
+    let args: Vec<String> = std::env::args().collect();
+    runner::install_panic_hook();
+    match args.get(1).map(|s| s.as_str()) {
+        Some("run") => cmd_run(&args),
+        Some("one") => cmd_one(&args),
+        Some("replay") => cmd_replay(&args),
+        Some("minimize") => cmd_minimize(&args),
+        _ => {
+            eprintln!("usage: tvsim run|one|replay ...");
+            std::process::exit(2);
+        }
+    }
+}
+
+/// run --prop C02 --tier quick --seed 1 --shard 0/16 --runs N --budget-s T --out FILE
+fn cmd_run(args: &[String]) {
+    let prop = leak(&arg(args, "--prop").expect("--prop"));
+    let thorough = arg(args, "--tier").map(|t| t == "thorough").unwrap_or(false);
+    let seed: u64 = arg(args, "--seed").and_then(|s| s.parse().ok()).unwrap_or(1);
+    let shard = arg(args, "--shard").unwrap_or("0/1".into());
+    let (si, sn) = shard.split_once('/').unwrap();
+    let (si, sn): (u64, u64) = (si.parse().unwrap(), sn.parse().unwrap());
+    let runs: u64 = arg(args, "--runs").and_then(|s| s.parse().ok()).unwrap_or(100);
+    let budget: f64 = arg(args, "--budget-s").and_then(|s| s.parse().ok()).unwrap_or(1e9);
+    let out_path = arg(args, "--out").expect("--out");
+    let progress = arg(args, "--progress");
+    set_known(args);
+    let t0 = Instant::now();
+    let mut agg = Agg::default();
+    let mut i = si;
+    while i < runs {
+        if t0.elapsed().as_secs_f64() > budget {
+            break;
+        }
+        if let Some(p) = &progress {
+            let _ = std::fs::write(p, format!("{i}"));
+        }
+        let rs = profiles::run_seed(seed, prop, thorough, i);
+        let case = profiles::gen_case(prop, rs, thorough);
+        let out = runner::run_case(prop, &case);
+        agg.add(i, rs, &case, &out);
+        if !out.violations.is_empty() && agg.violations.len() < 5 {
+            agg.violations.push(serde_json::json!({
+                "i": i, "run_seed": rs, "violations": out.violations, "case": case,
+                "choices": out.choices, "trace": out.trace, "log_hash": out.log_hash,
+            }));
+        }
+        i += sn;
+    }
+    agg.wall_s = t0.elapsed().as_secs_f64();
+    agg.completed_upto = i;
+    let mut f = std::fs::File::create(&out_path).expect("create out");
+    f.write_all(serde_json::to_string(&agg.to_json()).unwrap().as_bytes()).unwrap();
+}
+
+#[derive(Default)]
+pub struct Agg {
+    runs: u64,
+    nontrivial: u64,
+    distinct_nontrivial: BTreeSet<u64>,
+    log_hashes: Vec<(u64, u64)>,
+    sched_sigs: BTreeSet<u64>,
+    image_hashes: BTreeSet<u64>,
+    steps: u64,
+    storage_ops: u64,
+    sim_time_us: u64,
+    context_switches: u64,
+    faults_fired: BTreeMap<String, u64>,
+    ops_by_kind: BTreeMap<String, u64>,
+    probes: BTreeMap<String, u64>,
+    strategies: BTreeMap<String, u64>,
+    harness_errors: Vec<String>,
+    budget_exceeded: u64,
+    violations: Vec<serde_json::Value>,
+    violating_runs: u64,
+    viol_classes: BTreeMap<String, u64>,
+    known_triggers: BTreeMap<String, u64>,
+    known_hits: BTreeMap<String, u64>,
+    known_samples: Vec<serde_json::Value>,
+    samples: Vec<serde_json::Value>,
+    images_evaluated: u64,
+    images_distinct: u64,
+    publications_checked: u64,
+    commits_ok: u64,
+    fault_points: u64,
+    api_errors: u64,
+    wall_s: f64,
+    completed_upto: u64,
+}
+
+impl Agg {
+    fn add(&mut self, i: u64, rs: u64, case: &workload::Case, out: &exec::RunOut) {
+        self.runs += 1;
+        if out.nontrivial {
+            self.nontrivial += 1;
+            self.distinct_nontrivial.insert(out.log_hash);
+        }
+        self.log_hashes.push((i, out.log_hash));
+        self.sched_sigs.insert(out.sched_sig);
+        for h in &out.image_hashes {
+            self.image_hashes.insert(*h);
+        }
+        self.steps += out.steps;
+        self.storage_ops += out.storage_ops;
+        self.sim_time_us += out.sim_time_us;
+        self.context_switches += out.context_switches;
+        for (k, v) in &out.faults_fired {
+            *self.faults_fired.entry(k.clone()).or_insert(0) += v;
+        }
+        for (k, v) in &out.ops_by_kind {
+            *self.ops_by_kind.entry(k.clone()).or_insert(0) += v;
+        }
+        for (k, v) in &out.probes {
+            *self.probes.entry(k.clone()).or_insert(0) += v;
+        }
+        *self.strategies.entry(sched::strategy_name(&case.cfg.strategy)).or_insert(0) += 1;
+        if let Some(h) = &out.harness_error {
+            if h.starts_with("budget") {
+                self.budget_exceeded += 1;
+            } else if self.harness_errors.len() < 5 {
+                self.harness_errors.push(format!("run {i} seed {rs}: {h}"));
+            }
+        }
+        if !out.violations.is_empty() {
+            self.violating_runs += 1;
+            for v in &out.violations {
+                *self.viol_classes.entry(format!("{}/{}", v.prop, v.oracle)).or_insert(0) += 1;
+            }
+        }
+        for k in &out.known_triggers {
+            *self.known_triggers.entry(k.clone()).or_insert(0) += 1;
+        }
+        for (k, v) in &out.known_hits {
+            *self.known_hits.entry(k.clone()).or_insert(0) += 1;
+            if self.known_samples.len() < 3 {
+                self.known_samples.push(serde_json::json!({"finding": k, "run_index": i, "run_seed": rs, "violation": v}));
+            }
+        }
+        self.images_evaluated += out.images_evaluated;
+        self.images_distinct += out.images_distinct;
+        self.publications_checked += out.publications_checked;
+        self.commits_ok += out.commits_ok;
+        self.fault_points += out.fault_points;
+        self.api_errors += out.api_errors.len() as u64;
+        if self.samples.len() < 2 && out.nontrivial {
+            self.samples.push(serde_json::json!({
+                "run_index": i, "run_seed": rs,
+                "strategy": sched::strategy_name(&case.cfg.strategy),
+                "config": {"index_threads": case.cfg.index_threads, "merge_threads": case.cfg.merge_threads,
+                    "merge_policy": format!("{:?}", case.cfg.merge_policy), "flush_after": case.cfg.flush_after,
+                    "sorted": case.cfg.sorted, "sort_ty": format!("{:?}", case.cfg.sort_ty), "file_lock": !case.cfg.flock,
+                    "faults": case.cfg.faults},
+                "ops": case.ops.iter().map(exec::short_op).collect::<Vec<_>>(),
+                "steps": out.steps, "storage_ops": out.storage_ops, "context_switches": out.context_switches,
+                "api_errors": out.api_errors, "first_fault": out.first_fault,
+            }));
+        }
+    }
+
+    fn to_json(&self) -> serde_json::Value {
+        serde_json::json!({
+            "runs": self.runs, "nontrivial": self.nontrivial,
+            "distinct_nontrivial": self.distinct_nontrivial.iter().collect::<Vec<_>>(),
+            "log_hashes": self.log_hashes,
+            "sched_sigs": self.sched_sigs.iter().collect::<Vec<_>>(),
+            "image_hashes": self.image_hashes.iter().collect::<Vec<_>>(),
+            "steps": self.steps, "storage_ops": self.storage_ops, "sim_time_us": self.sim_time_us,
+            "context_switches": self.context_switches,
+            "faults_fired": self.faults_fired, "ops_by_kind": self.ops_by_kind, "probes": self.probes,
+            "strategies": self.strategies, "harness_errors": self.harness_errors,
+            "budget_exceeded": self.budget_exceeded,
+            "violations": self.violations, "violating_runs": self.violating_runs, "viol_classes": self.viol_classes, "known_triggers": self.known_triggers, "known_hits": self.known_hits, "known_samples": self.known_samples,
+            "samples": self.samples, "images_evaluated": self.images_evaluated,
+            "images_distinct": self.images_distinct,
+            "publications_checked": self.publications_checked, "commits_ok": self.commits_ok,
+            "fault_points": self.fault_points, "api_errors": self.api_errors,
+            "wall_s": self.wall_s, "completed_upto": self.completed_upto,
+        })
+    }
+}
+
+/// one --prop C02 --tier quick --seed 1 --index 17 : run a single generated case verbosely
+fn cmd_one(args: &[String]) {
+    let prop = leak(&arg(args, "--prop").expect("--prop"));
+    let thorough = arg(args, "--tier").map(|t| t == "thorough").unwrap_or(false);
+    let seed: u64 = arg(args, "--seed").and_then(|s| s.parse().ok()).unwrap_or(1);
+    let i: u64 = arg(args, "--index").and_then(|s| s.parse().ok()).unwrap_or(0);
+    let rs = profiles::run_seed(seed, prop, thorough, i);
+    let case = profiles::gen_case(prop, rs, thorough);
+    println!("run_seed={rs} cfg={:?}", case.cfg);
+    for (k, op) in case.ops.iter().enumerate() {
+        println!("  op{k}: {}", exec::short_op(op));
+    }
+    let out = runner::run_case(prop, &case);
+    println!("steps={} ops={} hash={:x} nontrivial={} harness_error={:?}", out.steps, out.storage_ops, out.log_hash, out.nontrivial, out.harness_error);
+    println!("probes={:?} api_errors={:?}", out.probes, out.api_errors);
+    for v in &out.violations {
+        println!("VIOLATION-DETAIL property={} oracle={} {}", v.prop, v.oracle, v.detail);
+    }
+}
+
+fn set_known(args: &[String]) {
+    let known: Vec<String> = arg(args, "--known").unwrap_or_default().split(',').filter(|s| !s.is_empty()).map(|s| s.to_string()).collect();
+    exec::KNOWN.with(|k| *k.borrow_mut() = known);
+}
+
+fn cmd_replay(args: &[String]) {
+    set_known(args);
+    // replay <file> [--prop Cxx]: the file is {property, case, choices?...}
+    let path = args.get(2).expect("replay <file>");
+    let v: serde_json::Value = serde_json::from_str(&std::fs::read_to_string(path).expect("read replay")).expect("json");
+    let prop = leak(v["property"].as_str().or(arg(args, "--prop").as_deref()).expect("property"));
+    let mut case: workload::Case = serde_json::from_value(v["case"].clone()).expect("case");
+    if let Some(ch) = v.get("choices").and_then(|c| c.as_array()) {
+        if !has(args, "--free") && !ch.is_empty() {
+            case.cfg.strategy = sched::Strategy::Replay { choices: ch.iter().map(|x| x.as_u64().unwrap() as u32).collect() };
+        }
+    }
+    let out = runner::run_case(prop, &case);
+    for (k, op) in case.ops.iter().enumerate() {
+        println!("  op{k}: {}", exec::short_op(op));
+    }
+    println!("steps={} ops={} hash={:x} harness_error={:?} known={:?}", out.steps, out.storage_ops, out.log_hash, out.harness_error, out.known_hits);
+    if let Some(h) = v.get("log_hash").and_then(|h| h.as_u64()) {
+        if h != out.log_hash && !has(args, "--free") {
+            println!("HARNESS: event log hash differs from the recorded one ({:x} vs {:x})", out.log_hash, h);
+            std::process::exit(2);
+        }
+    }
+    for l in &out.oplog {
+        println!("{l}");
+    }
+    if has(args, "--trace") {
+        for t in &out.trace { println!("  {t}"); }
+    }
+    for v in &out.violations {
+        println!("VIOLATION-DETAIL property={} oracle={} {}", v.prop, v.oracle, v.detail);
+    }
+    if let Some(v0) = out.violations.first() {
+        println!("VIOLATION property={} replay={}", v0.prop, path);
+        std::process::exit(1);
+    }
+    for (k, v) in &out.known_hits {
+        println!("KNOWN-FINDING: property={} {} {} {}", v.prop, k, v.oracle, v.detail.chars().take(200).collect::<String>());
+    }
+}
+
+/// minimize <in.json> <out.json>: shrink a violating case, write the replay file.
+fn cmd_minimize(args: &[String]) {
+    let inp = args.get(2).expect("minimize <in> <out>");
+    let outp = args.get(3).expect("minimize <in> <out>");
+    let v: serde_json::Value = serde_json::from_str(&std::fs::read_to_string(inp).expect("read")).expect("json");
+    let vprop = v["property"].as_str().expect("property").to_string();
+    let prop = leak(&arg(args, "--check-prop").unwrap_or(vprop.clone()));
+    let oracle = v["oracle"].as_str().expect("oracle").to_string();
+    let case: workload::Case = serde_json::from_value(v["case"].clone()).expect("case");
+    let mut m = minimize::Minimizer {
+        prop, vprop: vprop.clone(), oracle: oracle.clone(), execs: 0, t0: Instant::now(),
+        max_execs: arg(args, "--max-execs").and_then(|s| s.parse().ok()).unwrap_or(4000),
+        max_secs: arg(args, "--max-secs").and_then(|s| s.parse().ok()).unwrap_or(420.0),
+    };
+    let res = m.minimise(case.clone(), 24);
+    let (best, out) = match res {
+        Some(x) => x,
+        None => {
+            eprintln!("minimize: the original case does not reproduce");
+            std::process::exit(3);
+        }
+    };
+    let viol = out.violations.iter().find(|x| x.prop == vprop && x.oracle == oracle).unwrap().clone();
+    let j = serde_json::json!({
+        "property": vprop, "check": prop, "oracle": oracle, "detail": viol.detail,
+        "run_seed": v["run_seed"], "original_ops": case.ops.len(), "minimised_ops": best.ops.len(),
+        "minimiser_executions": m.execs,
+        "case": best, "choices": out.choices, "log_hash": out.log_hash,
+        "ops_readable": best.ops.iter().map(exec::short_op).collect::<Vec<_>>(),
+        "storage_ops": out.storage_ops, "steps": out.steps, "first_fault": out.first_fault,
+        "tantivy_rev": std::env::var("TVSIM_REPO_REV").unwrap_or_default(),
+    });
+    std::fs::write(outp, serde_json::to_string_pretty(&j).unwrap()).expect("write");
+    println!("minimised {} -> {} ops in {} executions", case.ops.len(), best.ops.len(), m.execs);
+}
